@@ -153,11 +153,19 @@ struct Ctx {
     cut_rate: u8,
     cuts_inside_prefix: usize,
     cuts_total: usize,
+    /// last segment of a cut message that has not been sent yet, per connection, with the number of script steps it
+    /// has been held: the rest of a message may arrive after other peers' traffic and after the client's own timers
+    held: std::collections::BTreeMap<usize, (Vec<u8>, u8)>,
+    held_total: usize,
 }
 
 impl Ctx {
     /// Send bytes on a connection, possibly cut into segments with barriers in between.
     async fn send(&mut self, w: &mut World, net: &mut Net, conn: usize, bytes: &[u8]) {
+        // what is still held back for this connection goes first
+        if let Some((tail, _)) = self.held.remove(&conn) {
+            w.send(conn, &tail);
+        }
         if self.cut_rate == 0 || bytes.len() < 2 || (self.rng.next() % 255) as u8 >= self.cut_rate {
             w.send(conn, bytes);
             return;
@@ -188,7 +196,28 @@ impl Ctx {
                 net.fold(w);
             }
         }
+        if at > 0 && self.rng.next() % 4 == 0 {
+            // the last segment stays behind until the end of the next script step
+            self.held.insert(conn, (bytes[at..].to_vec(), 0));
+            self.held_total += 1;
+            w.settle().await;
+            net.fold(w);
+            return;
+        }
         w.send(conn, &bytes[at..]);
+    }
+
+    /// End of a script step: segments held since the previous step are sent now.
+    fn end_of_step(&mut self, w: &mut World, all: bool) {
+        let due: Vec<usize> = self.held.iter().filter(|(_, (_, age))| all || *age >= 1).map(|(c, _)| *c).collect();
+        for c in due {
+            if let Some((tail, _)) = self.held.remove(&c) {
+                w.send(c, &tail);
+            }
+        }
+        for (_, (_, age)) in self.held.iter_mut() {
+            *age += 1;
+        }
     }
 }
 
@@ -197,6 +226,11 @@ pub fn check(c: &Case) -> Outcome {
     let cwd = fresh_cwd();
     let t = Torrent::new(c.geo.clone());
     let n = c.geo.pieces_num();
+    if c.seed % 8 == 3 {
+        // a restart: damaged piece files of an earlier run are in the directory
+        t.write_damaged_leftovers(c.seed);
+        o.class("damaged-leftover-piece-files");
+    }
     let c2 = c.clone();
     let t2 = t.clone();
     let res = swarm::run(c.seed, &t, move |w: &mut World| {
@@ -206,7 +240,7 @@ pub fn check(c: &Case) -> Outcome {
             let mut net = Net::new(&t);
             let mut classes: Vec<&'static str> = vec![];
             let mut fails: Vec<(String, String)> = vec![];
-            let mut ctx = Ctx { rng: Rng(c.seed | 1), cut_rate: c.cut_rate, cuts_inside_prefix: 0, cuts_total: 0 };
+            let mut ctx = Ctx { rng: Rng(c.seed | 1), cut_rate: c.cut_rate, cuts_inside_prefix: 0, cuts_total: 0, held: Default::default(), held_total: 0 };
             // piece distribution: every piece lives on at least one essential peer
             let ess: Vec<usize> = (0..c.peers.len()).filter(|i| c.peers[*i].essential).collect();
             let mut hs: Vec<Honest> = vec![];
@@ -384,6 +418,9 @@ pub fn check(c: &Case) -> Outcome {
                         if let Some(at) = h.unchoke_at {
                             if w.now() >= at {
                                 let conn = net.peers[h.p].conn;
+                                if let Some((tail, _)) = ctx.held.remove(&conn) {
+                                    w.send(conn, &tail);
+                                }
                                 w.send_frame(conn, &RFrame::Unchoke);
                                 net.peers[h.p].chokes_client = false;
                                 h.unchoke_at = None;
@@ -392,9 +429,12 @@ pub fn check(c: &Case) -> Outcome {
                     }
                 }
                 net.observe(w).await;
+                ctx.end_of_step(w, false);
             }
 
             w.frozen.clear();
+            ctx.end_of_step(w, true);
+            net.observe(w).await;
             // ---- autopilot: every surviving honest peer behaves: announces the rest, unchokes when due, serves everything;
             // an essential peer the client dropped is handed out again (as the tracker would)
             let mut rounds = 0usize;
@@ -404,6 +444,11 @@ pub fn check(c: &Case) -> Outcome {
             while w.fatal().is_none() && !all_have(w) && w.now() < horizon {
                 rounds += 1;
                 let mut progress = false;
+                if !ctx.held.is_empty() {
+                    // in this phase a held-back segment follows after one round at the latest
+                    ctx.end_of_step(w, true);
+                    progress = true;
+                }
                 for k in 0..hs.len() {
                     if hs[k].p == usize::MAX {
                         continue;
@@ -433,6 +478,9 @@ pub fn check(c: &Case) -> Outcome {
                     if net.peers[hs[k].p].chokes_client {
                         let due = hs[k].unchoke_at.map(|at| w.now() >= at).unwrap_or(true);
                         if due {
+                            if let Some((tail, _)) = ctx.held.remove(&conn) {
+                                w.send(conn, &tail);
+                            }
                             w.send_frame(conn, &RFrame::Unchoke);
                             net.peers[hs[k].p].chokes_client = false;
                             hs[k].unchoke_at = None;
@@ -526,6 +574,9 @@ pub fn check(c: &Case) -> Outcome {
             if ctx.cuts_total > 0 {
                 classes.push("stream-cut-inside-a-message");
             }
+            if ctx.held_total > 0 {
+                classes.push("rest-of-a-message-arrives-after-other-traffic");
+            }
             if ctx.cuts_inside_prefix > 0 {
                 classes.push("cut-inside-length-prefix");
             }
@@ -601,14 +652,14 @@ pub fn swarm_sub() -> Sub {
         cases: |t| t.pick(8_000, 100_000),
         run: |ctx| run_proptest(ctx, "swarm", strategy(ctx.tier), check),
         replay: |v| replay_case::<Case>(v, check),
-        min_class: &[(">=2-peers", 0.3747), ("non-essential-peer-disconnected", 0.0767), ("stream-cut-inside-a-message", 0.228), ("cut-inside-length-prefix", 0.2), ("multi-file", 0.258), ("piece-announced-by-have", 0.15), ("unknown-id-message", 0.15), ("peer-interested-in-client", 0.2), ("task-delayed-by-the-scheduler", 0.1), ("answers-out-of-request-order", 0.06)],
+        min_class: &[(">=2-peers", 0.3747), ("non-essential-peer-disconnected", 0.0767), ("stream-cut-inside-a-message", 0.228), ("cut-inside-length-prefix", 0.2), ("multi-file", 0.258), ("piece-announced-by-have", 0.15), ("unknown-id-message", 0.15), ("peer-interested-in-client", 0.2), ("task-delayed-by-the-scheduler", 0.1), ("answers-out-of-request-order", 0.06), ("damaged-leftover-piece-files", 0.05), ("rest-of-a-message-arrives-after-other-traffic", 0.12)],
     }
 }
 
 pub fn def() -> PropDef {
     PropDef {
         id: "C02",
-        rule: "sub swarm: a consistent torrent geometry (piece length from {1,3,64,1000,16384,16385,20000 (+16383,32768,40000 thorough)}, 1-5 files incl. zero-length and sub-piece files, single/multi-file form) and 1-4 honest peers whose piece sets cover everything on the essential ones; honest peers (some of them downloaders that declare interest in the client, some whose answers to cancelled requests are already in flight) answer every request with the right bytes (30 % of them newest request first), unchoke 0-59 virtual seconds after joining or after having choked, announce pieces by bitfield or partly by later Haves, send keep-alives and unknown-id messages; a generated script of up to 50 moves (serve 1-3 blocks, choke, unchoke, keep-alive, unknown message, have, disconnect of a non-essential peer, idle) picks who moves next; every outgoing message may be cut at generated points (also inside the length prefix) with or without a barrier between segments; afterwards all surviving honest peers serve until done, and an essential peer the client dropped is handed out again. Oracle: all pieces Have within 60 virtual minutes, never 200 virtual seconds without any request or delivery while an honest peer is connected, not choking the client and offering a missing piece (a hang), no task or manager panic, no honest connection ended by the client with an error, and the real Extractor reproduces every file byte for byte. Non-trivial = >= 2 peers and (a non-essential disconnect or a stream cut inside a message); distinct by hash of the case.",
+        rule: "sub swarm: a consistent torrent geometry (piece length from {1,3,64,1000,16384,16385,20000 (+16383,32768,40000 thorough)}, 1-5 files incl. zero-length and sub-piece files, single/multi-file form) and 1-4 honest peers whose piece sets cover everything on the essential ones; honest peers (some of them downloaders that declare interest in the client, some whose answers to cancelled requests are already in flight) answer every request with the right bytes (30 % of them newest request first), unchoke 0-59 virtual seconds after joining or after having choked, announce pieces by bitfield or partly by later Haves, send keep-alives and unknown-id messages; a generated script of up to 50 moves (serve 1-3 blocks, choke, unchoke, keep-alive, unknown message, have, disconnect of a non-essential peer, idle) picks who moves next; every outgoing message may be cut at generated points (also inside the length prefix) with or without a barrier between segments, and the last segment of a cut message may stay behind until the end of the next script step (other peers' traffic, the manager's broadcasts and the client's timers fall in between); in an eighth of the cases damaged piece files of an earlier run lie in the download directory; afterwards all surviving honest peers serve until done, and an essential peer the client dropped is handed out again. Oracle: all pieces Have within 60 virtual minutes, never 200 virtual seconds without any request or delivery while an honest peer is connected, not choking the client and offering a missing piece (a hang), no task or manager panic, no honest connection ended by the client with an error, and the real Extractor reproduces every file byte for byte. Non-trivial = >= 2 peers and (a non-essential disconnect or a stream cut inside a message); distinct by hash of the case.",
         assumptions: &[
             "liveness is decided up to a horizon of 60 virtual minutes",
             "a dropped essential peer is reachable again (the harness reconnects it, as a tracker would hand it out again)",
